@@ -14,7 +14,8 @@ import pyglove as pg
 MISSING = 98
 PNONE = 99
 INS = 5000
-DKEYS = {1: 'a', 2: 'b', 3: 'c'}
+DKEYS = {1: 'a', 2: 'b.c', 3: 'c'}      # keys of schemaless dicts: one of them contains a dot (it is ONE key, not a path)
+SDKEYS = {1: 'a', 2: 'b'}                # the fixed keys of the schema dicts
 OKEYS = {1: 'x', 2: 'y'}
 
 
@@ -68,12 +69,15 @@ def keymap(o):
     return OKEYS_B
   if isinstance(o, C):
     return OKEYS_C
+  if isinstance(o, pg.Dict) and o.value_spec is not None and o.value_spec.schema is not None and 'b' in [
+      str(k) for k in o.value_spec.schema.keys()]:
+    return SDKEYS
   return DKEYS
 
 
 TDICT_SPEC = pg.typing.Dict([(pg.typing.StrKey(), pg.typing.Any())])
 # "sd3" / "sd2" / "sd1": three nested schema dicts with fixed keys and defaults (what an object's attribute container is)
-SD1_SPEC = pg.typing.Dict([('a', pg.typing.Any(default=None)), ('b', pg.typing.Any(default=None))])
+SD1_SPEC = pg.typing.Dict([('a', pg.typing.Any(default=None)), ('b', pg.typing.Any(default=None))])     # keys: SDKEYS
 SD2_SPEC = pg.typing.Dict([('a', SD1_SPEC), ('b', pg.typing.Any(default=None))])
 SD3_SPEC = pg.typing.Dict([('a', SD2_SPEC), ('b', pg.typing.Any(default=None))])
 SD_SPECS = {'sd3': SD3_SPEC, 'sd2': SD2_SPEC, 'sd1': SD1_SPEC}
@@ -495,7 +499,7 @@ class Replayer:
     kind = st['kind'][n - 1]
     if kind in ('list', 'tlist'):
       return [(i, v) for i, v in enumerate(st['litems'][n - 1])]
-    inv = {'obj': OKEYS, 'objd': OKEYS, 'objb': OKEYS_B, 'objc': OKEYS_C}.get(kind, DKEYS)
+    inv = {'obj': OKEYS, 'objd': OKEYS, 'objb': OKEYS_B, 'objc': OKEYS_C, 'sd3': SDKEYS, 'sd2': SDKEYS, 'sd1': SDKEYS}.get(kind, DKEYS)
     return [(inv[k], v) for k, v in st['ditems'][n - 1]]
 
   def match_value(self, specv, pyv) -> bool:
@@ -665,7 +669,7 @@ class Replayer:
         cur = cur.sym_getattr(keys[-1])
       except Exception:  # pylint: disable=broad-except
         cur = None
-    return str(pg.KeyPath(keys))
+    return tuple(keys)           # key TUPLES, not path strings: a str key may contain '.' or brackets
 
   def compare_events(self, st):
     spec_evts = st['evts']
@@ -689,7 +693,11 @@ class Replayer:
       want = {}
       for path, old, new in ups:
         want[self.path_codes_to_str(n, path)] = (old, new)
-      have = {str(k): (u.old_value, u.new_value) for k, u in got[n].items()}
+      have = {tuple(k.keys): (u.old_value, u.new_value) for k, u in got[n].items()}
+      for k, u in got[n].items():
+        if tuple(u.path.keys) != tuple(self.obj[n].sym_path.keys) + tuple(k.keys):
+          raise Divergence('events', f'node {n}: the update reported at relative location {k.keys} carries the absolute path '
+                                     f'{u.path.keys} (receiver at {self.obj[n].sym_path.keys})')
       if set(want) != set(have):
         raise Divergence('events', f'node {n}: changed locations spec {sorted(want)} impl {sorted(have)}')
       for k, (old, new) in want.items():
@@ -706,34 +714,37 @@ class Replayer:
           raise Divergence('events', f'ancestor {m} notified before descendant {n}')
         m = parent[m - 1]
 
-  def nondefault_locations(self, o, prefix=()):
-    """Leaf locations sym_nondefault() reports, normalised: whole symbolic values are expanded,
-    anything below a placeholder is collapsed to the placeholder's location."""
+  def nested_locations(self, o, nested, what, prefix=()):
+    """Leaf locations (key tuples) of a nested report (sym_nondefault / sym_missing with flatten=False), normalised:
+    a whole container value is expanded leaf by leaf, a whole object value is asked again, anything below a
+    placeholder is collapsed to the placeholder's location.  For sym_nondefault the reported leaf value must be the
+    value stored there now."""
     out = set()
-    for key in o.sym_nondefault(flatten=True):
-      kp = pg.KeyPath.parse(key) if isinstance(key, str) else pg.KeyPath(key)
-      cur = o
-      loc = []
-      hit_ph = False
-      for k in kp.keys:
-        try:
-          cur = cur.sym_getattr(k)
-        except Exception as e:  # pylint: disable=broad-except
-          raise Divergence('facts', f'sym_nondefault() reports the location {key!r}, which does not exist: {e!r:.120}')
-        loc.append(k)
-        if isinstance(cur, (pg.hyper.OneOf, pg.Ref)):
-          hit_ph = True
-          break
-      if hit_ph or not isinstance(cur, pg.Symbolic):
-        out.add(str(pg.KeyPath(list(prefix) + loc)))
-        if not hit_ph and len(loc) == len(kp.keys):
-          # the reported value must be the value stored there NOW
-          rep_v = o.sym_nondefault(flatten=True)[key]
-          if not (rep_v is cur or (type(rep_v) is type(cur) and rep_v == cur)):
-            raise Divergence('facts', f'sym_nondefault() reports {rep_v!r} at {key!r} but {cur!r} is stored there')
+    items = nested.items() if isinstance(nested, dict) else enumerate(nested)
+    for k, v in items:
+      try:
+        cur = o.sym_getattr(k)
+      except Exception as e:  # pylint: disable=broad-except
+        raise Divergence('facts', f'{what} reports the location {prefix + (k,)!r}, which does not exist: {e!r:.120}')
+      loc = prefix + (k,)
+      if isinstance(cur, (pg.hyper.OneOf, pg.Ref)):
+        out.add(loc)
+      elif isinstance(cur, pg.Symbolic):
+        if isinstance(v, (dict, list)):
+          out |= self.nested_locations(cur, v, what, loc)
+        elif v is cur:
+          fresh = cur.sym_nondefault(flatten=False) if what == 'sym_nondefault()' else cur.sym_missing(flatten=False)
+          out |= self.nested_locations(cur, fresh, what, loc)
+        else:
+          raise Divergence('facts', f'{what} reports {v!r:.60} at {loc!r} but {cur!r:.60} is stored there')
       else:
-        out |= self.nondefault_locations(cur, tuple(prefix) + tuple(loc))
+        out.add(loc)
+        if what == 'sym_nondefault()' and not (v is cur or (type(v) is type(cur) and v == cur)):
+          raise Divergence('facts', f'{what} reports {v!r:.60} at {loc!r} but {cur!r:.60} is stored there')
     return out
+
+  def nondefault_locations(self, o):
+    return self.nested_locations(o, o.sym_nondefault(flatten=False), 'sym_nondefault()')
 
   def compare_facts(self, st, n, which='full'):
     f = st['facts'][n - 1]
@@ -742,7 +753,7 @@ class Replayer:
     o = self.obj[n]
     if which in ('full', 'missing'):
       want_missing = {self.path_codes_to_str(n, p) for p in f[1]}
-      got_missing = {str(k) for k in o.sym_missing(flatten=True)}
+      got_missing = self.nested_locations(o, o.sym_missing(flatten=False), 'sym_missing()')
       if want_missing != got_missing:
         raise Divergence('facts', f'node {n}: sym_missing() {sorted(got_missing)} expected {sorted(want_missing)}')
       if bool(o.is_partial) != bool(want_missing):
@@ -794,7 +805,8 @@ class Replayer:
           kw['onchange_callback'] = _make_cb(None)
         o = pg.List(items, accessor_writable=st['accw'][n - 1], **kw)
       elif k in ('dict', 'tdict', 'sd3', 'sd2', 'sd1'):
-        items = {DKEYS[kk]: (build(v) if 1 <= v <= n_nodes else leaf(v)) for kk, v in st['ditems'][n - 1]}
+        km = SDKEYS if k in SD_SPECS else DKEYS
+        items = {km[kk]: (build(v) if 1 <= v <= n_nodes else leaf(v)) for kk, v in st['ditems'][n - 1]}
         kw = {'value_spec': TDICT_SPEC} if k == 'tdict' else {'value_spec': SD_SPECS[k]} if k in SD_SPECS else {}
         if st['subs'][n - 1]:
           kw['onchange_callback'] = _make_cb(None)
